@@ -319,9 +319,11 @@ func cmdReplay(args []string) int {
 	sc := bufio.NewScanner(f)
 	sc.Buffer(make([]byte, 1<<20), 1<<28)
 	type result struct {
-		Behaviours int        `json:"behaviours"`
-		Steps      int        `json:"steps"`
-		Mismatches []mismatch `json:"mismatches"`
+		Behaviours        int        `json:"behaviours"`
+		Steps             int        `json:"steps"`
+		Mismatches        []mismatch `json:"mismatches"`
+		Unreproduced      int        `json:"unreproduced"` // mismatches that were gone on re-execution
+		UnreproducedFirst string     `json:"unreproducedFirst"`
 	}
 	var res result
 	var mu sync.Mutex
@@ -352,7 +354,19 @@ func cmdReplay(args []string) int {
 				if mm != nil && err == nil {
 					mm2, _, err2 := replayOne(beh, *retention)
 					if err2 == nil && (mm2 == nil || mm2.Step != mm.Step) {
-						err = fmt.Errorf("a mismatch at step %d (%s) did not reproduce on re-execution: %s", mm.Step, beh[mm.Step].A, mm.What)
+						var sb strings.Builder
+						for _, st := range beh[:mm.Step+1] {
+							fmt.Fprintf(&sb, " %s(%d)", st.A, st.Arg)
+						}
+						// timing, not behaviour (e.g. a dispatcher that missed its wake-up under load): not a verdict
+						// either way; counted, the caller decides how many of those it tolerates
+						mu.Lock()
+						res.Unreproduced++
+						if res.UnreproducedFirst == "" {
+							res.UnreproducedFirst = fmt.Sprintf("step %d of [%s ]: %s", mm.Step, sb.String(), mm.What)
+						}
+						mu.Unlock()
+						mm = nil
 					}
 				}
 				mu.Lock()
